@@ -178,6 +178,33 @@ yaclib::Future<int, TErr> CoObserve(SF sf, Ctx* cx, bool use_await) {
   co_return 1;
 }
 
+// the only remaining handle is read twice through co_await: whoever reads first must not take the value (or the
+// exception) away, a later reader of the same handle still finds it
+yaclib::Future<int, TErr> CoReadTwice(const SF& sf, Ctx* cx) {
+  for (int i = 0; i < 2; ++i) {
+    try {
+      Pay v = co_await sf;
+      if (cx->pk != kSetValue) {
+        cx->Err("co_await on the last handle returned a value although a failure was set");
+      } else if (v.Read() != 42) {
+        cx->Err("co_await on the last handle returned a wrong value");
+      }
+    } catch (const TExc& e) {
+      if (cx->pk != kSetException || e.id != 9) {
+        cx->Err("co_await on the last handle rethrew an unexpected exception");
+      }
+    } catch (const yaclib::ResultError<TErr>& e) {
+      const int want = cx->pk == kSetError ? 5 : -1;
+      if ((cx->pk != kSetError && cx->pk != kDropPromise) || e.Get().code != want) {
+        cx->Err("co_await on the last handle rethrew an unexpected error");
+      }
+    } catch (...) {
+      cx->Err("co_await on the last handle threw something else (a moved-out exception_ptr?)");
+    }
+  }
+  co_return 1;
+}
+
 struct Op {
   int op, par;
 };
@@ -211,6 +238,22 @@ void Observer(Ctx& cx, SF sf, const SF& common, const std::vector<Op>& ops, yacl
       Check(cx, r);
       return 1;
     };
+    // the same callbacks taking the shared Result by value: the library must hand a shared result over as a const
+    // reference (a copy is made), never as an rvalue (the payload would be moved out under the other observers)
+    auto cb_void_val = [&cx, guard](R r) {
+      guard.Use();
+      ++cx.fired;
+      --cx.registered_now;
+      Check(cx, r);
+    };
+    auto cb_int_val = [&cx, guard](R r) {
+      guard.Use();
+      ++cx.fired;
+      --cx.registered_now;
+      Check(cx, r);
+      return 1;
+    };
+    const bool by_value = (op.par >> 2) % 2 == 1;  // par is drawn from 0..7
     switch (op.op % kObsN) {
       case kReady:
         if (use.Ready()) {
@@ -223,22 +266,30 @@ void Observer(Ctx& cx, SF sf, const SF& common, const std::vector<Op>& ops, yacl
       case kSubscribeInline:
         ++cx.expected;
         ++cx.registered_now;
-        use.SubscribeInline(cb_void);
+        if (by_value) {
+          use.SubscribeInline(cb_void_val);
+        } else {
+          use.SubscribeInline(cb_void);
+        }
         break;
       case kSubscribeExec:
         ++cx.expected;
         ++cx.registered_now;
-        use.Subscribe(e, cb_void);
+        if (by_value) {
+          use.Subscribe(e, cb_void_val);
+        } else {
+          use.Subscribe(e, cb_void);
+        }
         break;
       case kThenInline:
         ++cx.expected;
         ++cx.registered_now;
-        outs.push_back(use.ThenInline(cb_int));
+        outs.push_back(by_value ? use.ThenInline(cb_int_val) : use.ThenInline(cb_int));
         break;
       case kThenExec:
         ++cx.expected;
         ++cx.registered_now;
-        outs_on.push_back(use.Then(e, cb_int));
+        outs_on.push_back(by_value ? use.Then(e, cb_int_val) : use.Then(e, cb_int));
         break;
       case kGetConst:
         Check(cx, use.Get());
@@ -571,6 +622,10 @@ class Shared final : public vf::Family {
           auto flat = yaclib::MakeFuture<void, TErr>().ThenInline([copy = sf0]() { return copy; });
           R r = std::move(flat).Get();
           Check(cx, r);
+          Check(cx, sf0.Get());
+        }
+        if ((pre & 2) == 0) {
+          (void)CoReadTwice(sf0, &cx).Get();
           Check(cx, sf0.Get());
         }
         sf0 = {};
